@@ -105,6 +105,14 @@ class LocalSim(mosaik_api_v3.Simulator):
 class LocalGenSim(LocalSim):
     """Generator-style step(): yields the call-backs (set_data / get_data) to mosaik."""
 
+    async def _flagged(self, name, arg):
+        if name == "set_event":
+            self.ctx.in_set_event = arg
+        try:
+            return await getattr(self.mosaik, name)(arg)
+        finally:
+            self.ctx.in_set_event = None
+
     def step(self, time, inputs, max_advance):
         from mosaik.exceptions import ScenarioError, SimulationError
 
@@ -112,7 +120,7 @@ class LocalGenSim(LocalSim):
         for name, arg in rep.calls:
             ev = {"k": "CB", "s": self.sid, "f": name, "arg": _enc_cb(name, arg), "res": "ok"}
             try:
-                yield getattr(self.mosaik, name)(arg)
+                yield self._flagged(name, arg)
             except ScenarioError:
                 ev["res"] = "ScenarioError"
             except SimulationError:
